@@ -16,7 +16,7 @@
 #include <sys/wait.h>
 #include "hc.h"
 
-enum { N_TRY = 1, N_THROW, N_MARK, N_CALL };
+enum { N_TRY = 1, N_THROW, N_MARK, N_CALL, N_THROWN };
 struct PNode { int t; int arg; int body, handler; int next; };      /* indices into nodes[], 0 = none */
 static struct PNode nodes[65536]; static int nn = 1;
 static int tok;
@@ -30,6 +30,7 @@ static int parse_stmt(void) {
     tok++; int b = parse_list(); tok++; tok++; int h = parse_list(); tok++;
     nodes[id].body = b; nodes[id].handler = h; }
   else if (hc_is(tok, "X")) { n->t = N_THROW; n->arg = (int)hc_int(tok + 1); tok += 2; }
+  else if (hc_is(tok, "Y")) { n->t = N_THROWN; n->arg = (int)hc_int(tok + 1); tok += 2; }
   else if (hc_is(tok, "M")) { n->t = N_MARK; tok += 1; }
   else if (hc_is(tok, "C")) { n->t = N_CALL; tok += 1; tok++; int b = parse_list(); tok++; nodes[id].body = b; }
   else { fprintf(stderr, "bad program token %s\n", hc_w[tok]); exit(9); }
@@ -45,6 +46,16 @@ static int parse_list(void) {
   return first;
 }
 
+/* an object whose Show instance uses a complete try / throw / catch of its own: as an argument of a throw's message it runs
+   while that throw is being prepared - the exception that throw raises is still the one it was given */
+struct ShowTry { int64_t shown; };
+static int ShowTry_Show(var self, var out, int pos) {
+  struct ShowTry* st = self;
+  var inner = st->shown == 1 ? TypeError : st->shown == 2 ? ValueError : KeyError;          /* (shown: which kind it raises inside) */
+  try { throw(inner, "inside show %i", $I(st->shown)); } catch (e) { }
+  return print_to(out, pos, "<ShowTry>");
+}
+var ShowTry = Cello(ShowTry, Instance(Show, ShowTry_Show, NULL));
 static var kind_obj(int k) { return k == 1 ? TypeError : k == 2 ? ValueError : KeyError; }
 static int kind_of_obj(var e) { return e == TypeError ? 1 : e == ValueError ? 2 : e == KeyError ? 3 : -1; }
 static int fid_counter = 0;
@@ -80,6 +91,7 @@ static void run_list(int first) {
     switch (n->t) {
       case N_TRY: run_try(n); break;
       case N_THROW: ev_begin("throw"); ev_int("e", n->arg); ev_end(); ev_flush(); throw(kind_obj(n->arg), "kind %i", $I(n->arg)); break;
+      case N_THROWN: ev_begin("throw"); ev_int("e", n->arg); ev_end(); ev_flush(); throw(kind_obj(n->arg), "kind %i %$", $I(n->arg), $(ShowTry, n->arg % 3 + 1)); break;
       case N_MARK: ev_begin("mark"); ev_end(); break;
       case N_CALL: ev_begin("call"); ev_end(); run_call(n->body); ev_begin("ret"); ev_end(); break;
     }
@@ -108,15 +120,6 @@ var TryKind = Cello(TryKind, Instance(Cmp, TryKind_Cmp));
 struct PlainKind { int64_t domain, code; };
 var PlainKind = Cello(PlainKind);
 static var PlainK11, PlainK12, PlainK21;
-/* an object whose Show instance uses a complete try / throw / catch of its own: as an argument of a throw's message it runs
-   while that throw is being prepared - the exception that throw raises is still the one it was given */
-struct ShowTry { int64_t shown; };
-static int ShowTry_Show(var self, var out, int pos) {
-  struct ShowTry* st = self;
-  try { throw(KeyError, "inside show %i", $I(st->shown)); } catch (e in KeyError) { st->shown++; }
-  return print_to(out, pos, "<ShowTry>");
-}
-var ShowTry = Cello(ShowTry, Instance(Show, ShowTry_Show, NULL));
 /* ... and status codes: Int objects whose values agree in their low 32 bits (a facility in the high half), Strings in prefix relation */
 static var IntK7, IntK7a, IntK7b, IntK7c, StrKa, StrKb;
 #define NK 32
